@@ -209,3 +209,12 @@ for _o in (True, False):
     OBLIGATIONS.append(Ob("metric_psi_divide_twopi_%s" % ("orth" if _o else "nonorth"), _mk_scale(_o), tier="quick" if _o else "thorough", wall_s=240 if _o else 3000, family="field reversal",
                           encodes=["hypnotoad.core.mesh:MeshRegion.calcMetric", "hypnotoad.core.mesh:MeshRegion.geometry2"],
                           desc="homogeneous outputs scale with the documented power of k when psi -> psi/k", stubs=["as C02"], bounds="k in [1.5, 8]"))
+
+import harness.c03 as _c03  # noqa: E402
+for _rc in (0, 1):
+    for _d in (0, 1):
+        for _rb in (0, 1):
+            OBLIGATIONS.append(Ob("constructor_option_signs_rc%d_2pi%d_rbt%d" % (_rc, _d, _rb), _c03._mk_signs(bool(_rc), bool(_d), bool(_rb)), tier="quick", family="field reversal",
+                                  encodes=["hypnotoad.cases.tokamak:TokamakEquilibrium.__init__"],
+                                  desc="reverse_current / psi_divide_twopi / reverse_Bt act on psi2D, psi1D, the gfile psi scalars and fpol consistently: only signs and the 2*pi factor "
+                                       "change (shared with C03)", bounds="psi2D 2x2, profiles of length 3, all values symbolic"))
